@@ -135,7 +135,7 @@ pub fn run(args: &Args, report: &mut Report) {
                 continue;
             }
             Err(m) => {
-                report.oracle_failure(json!({"input": input, "what": format!("inference panicked: {m}"), "class": null}));
+                push_failure(report, json!({"input": input, "what": format!("inference panicked: {m}"), "class": null}));
                 continue;
             }
         };
@@ -176,7 +176,7 @@ pub fn run(args: &Args, report: &mut Report) {
                 if canon_str(&exp, true) != canon_str(&real_s, true) {
                     let class = classify(name, &binds_g);
                     report.count(&format!("oracle_class:{}", class.unwrap_or("unclassified")));
-                    report.oracle_failure(json!({"input": input, "what": format!("`{name}` with {binds:?}: inferred {real_s}, expected the instance {exp} of `{ret}`"), "class": class}));
+                    push_failure(report, json!({"input": input, "what": format!("`{name}` with {binds:?}: inferred {real_s}, expected the instance {exp} of `{ret}`"), "class": class}));
                 } else {
                     report.count("oracle_agree");
                 }
@@ -237,4 +237,20 @@ pub fn pattern_ser(p: &str) -> Option<String> {
         "fun(): T" => "(fn (v 0))".into(),
         _ => return None,
     })
+}
+
+/// keep the list of reported failures small per known class so that unclassified ones are never cut off
+fn push_failure(report: &mut Report, v: Value) {
+    let class = v["class"].as_str().map(|s| s.to_string());
+    if let Some(c) = class {
+        let key = format!("oracle_listed:{c}");
+        let n = report.distribution.get(&key).copied().unwrap_or(0);
+        report.count(&key);
+        if n >= 5 {
+            report.count("oracle_failures_total");
+            report.count("oracle_failures_not_listed");
+            return;
+        }
+    }
+    report.oracle_failure(v);
 }
